@@ -320,7 +320,20 @@ static void check_parse(Case &c, PEntry pe, const std::string &lit, Exact &blk, 
     }
     if (pe != P_ATOF32 && (!std::isfinite(ref) || (ref != 0 && std::fabs(ref) < DBL_MIN)))
     {
-        c.log(" (outside double's normal range: value not compared)");
+        // outside double's normal range the digits are not compared, the kind of result is: a literal the host turns
+        // into +-inf must come out as +-inf (or the largest finite value: the last half ulp may round either way), one
+        // the host turns into a denormal must come out tiny
+        if (std::isinf(ref))
+            VP_CHECK(got == ref || got == (ref > 0 ? DBL_MAX : -DBL_MAX), "atof_overflow", "%s(\"%s\") = %.17g, strtod gives %s", pentry_name[pe], lit.c_str(), got,
+                     ref > 0 ? "inf" : "-inf");
+        else
+            VP_CHECK(std::fabs(got) <= 2 * DBL_MIN, "atof_underflow", "%s(\"%s\") = %.17g, strtod gives the denormal %.17g", pentry_name[pe], lit.c_str(), got, ref);
+        c.log(" (outside double's normal range: only the kind of result is compared)");
+    }
+    else if (pe != P_ATOF32 && ref == 0 && got != 0)
+    {
+        // the host underflowed to zero (or the literal is a zero): at most the smallest denormal may come out
+        VP_CHECK(std::fabs(got) <= 4.9406564584124654e-324, "atof_underflow", "%s(\"%s\") = %.17g, strtod gives 0", pentry_name[pe], lit.c_str(), got);
     }
     else
     {
@@ -462,11 +475,28 @@ void t_atof_long(Src &s, Case &c)
             lit += d;
         }
     };
-    int shape = (int)s.weighted({3, 3, 3, 2});
+    int shape = (int)s.weighted({3, 3, 3, 2, 3});
     int expo = 0;
     bool has_exp = false;
     switch (shape)
     {
+    case 4: // ordinary mantissa, exponent far outside the double range (the scaling steps of the parser: 256, 512, 768, 1024, ...)
+    {
+        int ni = (int)s.range(1, 6), nf = (int)s.range(0, 6);
+        digits(ni, true);
+        if (nf)
+        {
+            lit += '.';
+            digits(nf, false);
+        }
+        has_exp = true;
+        expo = s.coin() ? (int)s.pick({255, 256, 257, 308, 309, 324, 325, 511, 512, 513, 767, 768, 769, 1023, 1024, 1025, 1279, 1280, 2048, 4932, 4933, 5000}) : (int)s.range(250, 1300);
+        expo += (int)s.range(-3, 3);
+        if (s.coin())
+            expo = -expo;
+        c.label("exponent_far_outside_the_range");
+        break;
+    }
     case 0: // many significant digits around the point
     {
         int ni = (int)s.range(0, 40), nf = (int)s.range(ni ? 0 : 1, 40);
